@@ -24,8 +24,9 @@
 (* coded design for violations of the same invariant.                      *)
 (***************************************************************************)
 EXTENDS ValueSpec, Randomization
+PS == INSTANCE PySeq          \* CPython slice semantics (validated against the interpreter by C02)
 
-CONSTANTS Kind,          \* "dict" | "list" | "obj"
+CONSTANTS Kind,          \* "dict" | "list" | "list2" (bounds 2..5, for extended slices) | "obj" | "nest" (nested objects)
           InitPartial,   \* the container was created with allow_partial = TRUE
           Mirror,        \* FALSE: intended semantics; TRUE: size checks as coded
           MaxLevel,      \* depth bound
@@ -39,19 +40,34 @@ VARIABLES root,          \* content (value record)
           pok,           \* the value was explicitly made partial (constructor flag or a write under allow_partial(True))
           out,           \* "ok" | "err" : outcome of the last call
           alts,          \* contents the last call may legitimately have left (singleton unless a batch was rejected)
-          act            \* the last call (history variable for the replay)
-vars == <<root, pok, out, alts, act>>
-view == <<root, pok, out>>
+          act,           \* the last call (history variable for the replay)
+          ext            \* Kind = "nest": content of a second, free-standing object that is written into the holder
+vars == <<root, pok, out, alts, act, ext>>
+view == <<root, pok, out, ext>>
 
 P(Q) == IF SimK = 0 \/ Cardinality(Q) <= SimK THEN Q ELSE RandomSubset(SimK, Q)
 
 ---------------------------------------------------------------------------
 (* The schemas *)
 ElemS == IntS(0, 2, FALSE)
-LSpec == IF Kind = "obj" THEN ListS(ElemS, 0, 2) ELSE ListS(ElemS, 1, 3)    \* the object's list may be empty, holds at most 2
-DSpec == DictS(<< <<1, IntS(0, NONE, FALSE)>>, <<2, Dflt(I0, IntV(1))>>, <<3, LSpec>>, <<0, StrS>> >>)
-OSpec == DictS(<< <<1, IntS(0, NONE, FALSE)>>, <<2, Frz(I0, IntV(1))>>, <<3, LSpec>>, <<4, NonOf(StrS)>> >>)
-RootSpec == CASE Kind = "dict" -> DSpec [] Kind = "obj" -> OSpec [] Kind = "list" -> LSpec
+IsListKind == Kind \in {"list", "list2"}
+LSpec == IF Kind = "obj" THEN ListS(ElemS, 0, 2)                           \* the object's list may be empty, holds at most 2
+         ELSE IF Kind = "list2" THEN ListS(ElemS, 2, 5) ELSE ListS(ElemS, 1, 3)
+\* k2 of the dict is noneable with a non-None default, k2 of the object is noneable AND frozen to 1
+DSpec == DictS(<< <<1, IntS(0, NONE, FALSE)>>, <<2, Dflt(NonOf(I0), IntV(1))>>, <<3, LSpec>>, <<0, StrS>> >>)
+OSpec == DictS(<< <<1, IntS(0, NONE, FALSE)>>, <<2, Frz(NonOf(I0), IntV(1))>>, <<3, LSpec>>, <<4, NonOf(StrS)>> >>)
+\* Kind = "nest": a holder object H {k1: Object(A) required, k2: Int default 1} over the classes
+\* A (id 11) {k1: Object(B) required, k2: Int default 1} and B (id 12) {k1: Int(min 0) required, k2: Str noneable}
+BSpec == DictS(<< <<1, IntS(0, NONE, FALSE)>>, <<2, NonOf(StrS)>> >>)
+ASpec == DictS(<< <<1, ObjS(12)>>, <<2, Dflt(I0, IntV(1))>> >>)
+HSpec == DictS(<< <<1, ObjS(11)>>, <<2, Dflt(I0, IntV(1))>> >>)
+BVal(x) == V("obj", 12, << <<1, x>>, <<2, VNone>> >>)
+AVal(b) == V("obj", 11, << <<1, b>>, <<2, IntV(1)>> >>)
+RECURSIVE HasMissing(_)
+HasMissing(v) == \/ v = VMissing
+                 \/ (v.t \in {"list", "tuple"} /\ \E i \in 1..Len(v.xs) : HasMissing(v.xs[i]))
+                 \/ (v.t \in {"dict", "obj"} /\ \E i \in 1..Len(v.xs) : HasMissing(v.xs[i][2]))
+RootSpec == CASE Kind = "dict" -> DSpec [] Kind = "obj" -> OSpec [] Kind = "nest" -> HSpec [] IsListKind -> LSpec
 LKey == 3                       \* the field that holds the nested typed list
 Lo == LSpec.lo
 Hi == LSpec.hi
@@ -62,11 +78,14 @@ ElemPool == IF Small THEN {IntV(0), IntV(3), StrV(1)}
 ListPool == IF Small THEN {ListV(<<>>), ListV(<<IntV(0)>>), ListV(<<IntV(0), IntV(3)>>)}
             ELSE {ListV(<<>>), ListV(<<IntV(1)>>), ListV(<<IntV(0), IntV(2)>>), ListV(<<IntV(1), IntV(3)>>),
                   ListV(<<IntV(0), IntV(0), IntV(0), IntV(0)>>), ListV(<<StrV(1)>>)}
-FieldPool == (IF Small THEN {IntV(0), IntV(-1), StrV(1), VNone, VMissing}
-              ELSE {IntV(0), IntV(1), IntV(2), IntV(-1), StrV(1), StrV(2), VNone, VMissing}) \cup ListPool
+NestPool == {AVal(BVal(IntV(0))), AVal(BVal(IntV(2))), AVal(BVal(VMissing)), AVal(VMissing), BVal(IntV(0)),
+             IntV(0), IntV(-1), VNone, VMissing}
+FieldPool == IF Kind = "nest" THEN NestPool
+             ELSE (IF Small THEN {IntV(0), IntV(-1), StrV(1), VNone, VMissing}
+                   ELSE {IntV(0), IntV(1), IntV(2), IntV(-1), StrV(1), StrV(2), VNone, VMissing}) \cup ListPool
 DictKeys == IF Small THEN {1, 2, 3, 7, 9} ELSE {1, 2, 3, 7, 8, 9}           \* 7, 8 dynamic; 9 undeclared
 ObjKeys == {1, 2, 3, 4, 9}
-KeysOf == IF Kind = "dict" THEN DictKeys ELSE ObjKeys
+KeysOf == IF Kind = "dict" THEN DictKeys ELSE IF Kind = "nest" THEN {1, 2, 9} ELSE ObjKeys
 Scopes == {"N", "T", "F"}                \* no allow_partial scope / allow_partial(True) / allow_partial(False)
 Eff(sc) == IF sc = "N" THEN InitPartial ELSE sc = "T"
 Seqs2(Q) == {<<>>} \cup {<<x>> : x \in Q} \cup {<<x, y>> : x \in Q, y \in Q}
@@ -86,13 +105,14 @@ FW(c, k, v, p) ==
   IF j = 0 THEN (IF v = VMissing THEN FRAny(c)                              \* "delete" an undeclared (hence absent) key: nothing to do
                  ELSE FR(FALSE, c))                                         \* undeclared key: KeyError
   ELSE LET f == RootSpec.fields[j][2]
-           const == RootSpec.fields[j][1] # 0
+           const == RootSpec.fields[j][1] > 0
        IN IF v = VMissing /\ ~const THEN FR(TRUE, IF HasKey(c, k) THEN Rem(c, k) ELSE c)    \* MISSING deletes a dynamic key
           ELSE IF v = VMissing
                THEN (IF HasDefault(f) THEN FR(TRUE, Put(c, k, App(f, RefDefault(f))))     \* MISSING restores the default
                      ELSE IF p THEN FR(TRUE, Put(c, k, VMissing))                         \* ... or leaves the field missing when partial
                      ELSE FR(FALSE, c))                                                   \* ... else ValueError
-          ELSE IF Acc(f, v) = "yes" THEN FR(TRUE, Put(c, k, App(f, v)))
+          ELSE IF Acc(f, v) = "yes" /\ (p \/ ~HasMissing(v))            \* a partial value needs allow_partial
+               THEN FR(TRUE, Put(c, k, App(f, v)))
           ELSE FR(FALSE, c)
 
 ---------------------------------------------------------------------------
@@ -145,9 +165,9 @@ LReb2(l, i, v, j, w) ==                                                         
             {l} \cup (IF EAcc(v) THEN {ri} ELSE {}) \cup (IF EAcc(w) THEN {rj} ELSE {}))
 
 \* where the list lives
-HasList == IF Kind = "list" THEN TRUE ELSE HasKey(root, LKey) /\ ValAt(root, LKey).t = "list"
-TheList == IF Kind = "list" THEN root ELSE ValAt(root, LKey)
-Lift(nl) == IF Kind = "list" THEN nl ELSE Put(root, LKey, nl)
+HasList == IF IsListKind THEN TRUE ELSE Kind # "nest" /\ HasKey(root, LKey) /\ ValAt(root, LKey).t = "list"
+TheList == IF IsListKind THEN root ELSE ValAt(root, LKey)
+Lift(nl) == IF IsListKind THEN nl ELSE Put(root, LKey, nl)
 Len0 == Len(TheList.xs)
 
 ---------------------------------------------------------------------------
@@ -158,23 +178,24 @@ Step(okk, nroot, nalts, sc, a) ==
   /\ root' \in (IF SimK = 0 THEN nalts ELSE {nroot})        \* simulation follows the result as coded
   /\ pok' = (pok \/ (sc = "T"))
   /\ act' = a
+  /\ ext' = ext
 StepL(r, a) == Step(r.ok, Lift(r.l), {Lift(x) : x \in r.alts}, "N", a)
-StepF(r, sc, a) == IF r.dc THEN /\ out' = "any" /\ alts' = {r.c} /\ root' = r.c /\ pok' = (pok \/ (sc = "T")) /\ act' = a
+StepF(r, sc, a) == IF r.dc THEN /\ out' = "any" /\ alts' = {r.c} /\ root' = r.c /\ pok' = (pok \/ (sc = "T")) /\ act' = a /\ ext' = ext
                    ELSE Step(r.ok, r.c, {r.c}, sc, a)
 
 \* ---- dict-like roots
 FSet(name) == \E k \in P(KeysOf), v \in P(FieldPool), sc \in P(Scopes) :
-                 /\ (sc = "N" \/ v = VMissing)                       \* the scope matters for MISSING only
+                 /\ (sc = "N" \/ HasMissing(v))                     \* the scope matters for MISSING / partial values only
                  /\ ~(name = "OSetAttr" /\ k = 9)                    \* o.k9 = v creates a plain Python attribute
                  /\ StepF(FW(root, k, v, Eff(sc)), sc, <<name, sc, k, v>>)
 DSet == "dset" \in Acts /\ Kind = "dict" /\ FSet("DSet")             \* d[k] = v   (v = MISSING: the marker assignment)
 DSetAttr == "dset" \in Acts /\ Kind = "dict" /\ FSet("DSetAttr")     \* d.k = v
-OSetAttr == "oset" \in Acts /\ Kind = "obj" /\ FSet("OSetAttr")      \* o.k = v    (k9: not generated, a plain attribute)
+OSetAttr == "oset" \in Acts /\ Kind \in {"obj", "nest"} /\ FSet("OSetAttr")      \* o.k = v    (k9: not generated, a plain attribute)
 Rebind1(name) == \E k \in P(KeysOf), v \in P(FieldPool), sc \in P(Scopes) :
-                 /\ (sc = "N" \/ v = VMissing)
+                 /\ (sc = "N" \/ HasMissing(v))
                  /\ StepF(FW(root, k, v, Eff(sc)), sc, <<name, sc, <<k>>, v>>)
 DRebind1 == "rebind" \in Acts /\ Kind = "dict" /\ Rebind1("Rebind1")
-ORebind1 == "rebind" \in Acts /\ Kind = "obj" /\ Rebind1("Rebind1")
+ORebind1 == "rebind" \in Acts /\ Kind \in {"obj", "nest"} /\ Rebind1("Rebind1")
 DDelLike(name) == \E k \in P(KeysOf), sc \in P(Scopes) :
                  StepF(IF HasKey(root, k) THEN FW(root, k, VMissing, Eff(sc)) ELSE FR(FALSE, root), sc, <<name, sc, k>>)
 DDel == "ddel" \in Acts /\ Kind = "dict" /\ DDelLike("DDel")         \* del d[k]
@@ -205,6 +226,29 @@ DIor == "batch" \in Acts /\ Kind = "dict" /\ Batch2("DIor")
 DRebind2 == "batch" \in Acts /\ Kind = "dict" /\ Batch2("Rebind2")
 ORebind2 == "batch" \in Acts /\ Kind = "obj" /\ Batch2("Rebind2")
 
+\* ---- Kind = "nest": nested objects, partial values and non-partial holders
+\* the free-standing object `ext` (it has a parent of its own, so the holder stores a copy) is written into the holder
+NSetExt(name) == \E sc \in P(Scopes) : StepF(FW(root, 1, ext, Eff(sc)), sc, <<name, sc>>)
+NSetExtAttr == "nest" \in Acts /\ Kind = "nest" /\ NSetExt("NSetExtAttr")          \* holder.k1 = ext
+NSetExtRebind == "nest" \in Acts /\ Kind = "nest" /\ NSetExt("NSetExtRebind")      \* holder.rebind(k1=ext)
+\* a write to the leaf two levels below an A object: x.k1.k1 = v  (x = ext, or the A object the holder stores)
+LeafPool == {IntV(0), IntV(2), IntV(-1), StrV(1), VMissing}
+IsA(v) == v.t = "obj" /\ v.a = 11 /\ ValAt(v, 1).t = "obj"
+SetLeaf(a, v) == V("obj", 11, << <<1, V("obj", 12, << <<1, v>>, <<2, ValAt(ValAt(a, 1), 2)>> >>)>>, <<2, ValAt(a, 2)>> >>)
+LeafOK(v, p) == IF v = VMissing THEN p ELSE Acc(BSpec.fields[1][2], v) = "yes"
+NLeaf == /\ "nest" \in Acts /\ Kind = "nest"
+         /\ \E tgt \in P({"ext", "root"}), via \in P({"direct", "path", "attr"}), sc \in P(Scopes), v \in P(LeafPool) :
+              /\ (sc = "N" \/ v = VMissing)
+              /\ (tgt = "root" => HasKey(root, 1) /\ IsA(ValAt(root, 1)))
+              /\ (tgt = "ext" => IsA(ext))
+              /\ LET ok == LeafOK(v, sc = "T")                  \* none of these objects has allow_partial itself
+                      nroot == IF ok /\ tgt = "root" THEN Put(root, 1, SetLeaf(ValAt(root, 1), v)) ELSE root
+                  IN /\ out' = IF ok THEN "ok" ELSE "err"
+                     /\ root' = nroot /\ alts' = {nroot}
+                     /\ ext' = IF ok /\ tgt = "ext" THEN SetLeaf(ext, v) ELSE ext
+                     /\ pok' = (pok \/ (sc = "T" /\ tgt = "root"))
+                     /\ act' = <<"NLeaf", tgt, via, sc, v>>
+
 \* ---- the typed list (the root itself, or the nested list at key 3)
 CanShrink == ~Avoid \/ Len0 > Lo
 CanGrow == ~Avoid \/ Len0 < Hi
@@ -229,6 +273,20 @@ LDelSlice == "slice" \in Acts /\ HasList /\ \E a \in P(0..Len0), b \in P(0..Len0
           a < b /\ StepL(Checked(TheList, ListV(Cut(TheList.xs, a, b))), <<"LDelSlice", a, b>>)
 LSetSliceA == "slice" \in Acts /\ HasList /\ \E a \in P(0..Len0), b \in P(0..Len0), vs \in P(Seqs2(ElemPool)) :
           a <= b /\ StepL(LSetSlice(TheList, a, b, vs), <<"LSetSlice", a, b, vs>>)
+\* extended slices (step # 1): deletion removes the selected positions, assignment needs as many values as positions
+StepSet == {2, 3, -1, -2, -3}
+Bounds(n) == {NONE, 0, 1, n - 1, n, -1}
+LDelSliceX == "xslice" \in Acts /\ HasList /\ \E a \in P(Bounds(Len0)), b \in P(Bounds(Len0)), k \in P(StepSet) :
+          StepL(Checked(TheList, ListV(PS!SliceDelete(TheList.xs, a, b, k))), <<"LDelSliceX", a, b, k>>)
+LSetSliceXR(l, a, b, k, vs) ==
+  LET r == PS!SlicePositions(a, b, k, Len(l.xs))
+      bad == FirstBad(vs)
+      part(m) == ListV([i \in 1..Len(l.xs) |-> IF \E j \in 1..m : r[j] + 1 = i THEN vs[CHOOSE j \in 1..m : r[j] + 1 = i] ELSE l.xs[i]])
+  IN IF Len(r) # Len(vs) THEN RErr(l)                                     \* ValueError: sizes differ
+     ELSE IF bad = 0 THEN ROk(part(Len(vs)))
+     ELSE R(FALSE, part(bad - 1), {part(m) : m \in 0..(bad - 1)})
+LSetSliceX == "xslice" \in Acts /\ HasList /\ \E a \in P(Bounds(Len0)), b \in P(Bounds(Len0)), k \in P(StepSet), vs \in P(Seqs2(ElemPool)) :
+          StepL(LSetSliceXR(TheList, a, b, k, vs), <<"LSetSliceX", a, b, k, vs>>)
 LAppend == "lins" \in Acts /\ HasList /\ \E v \in P(ElemPool) : StepL(LInsAt(TheList, Len0, v, FALSE), <<"LAppend", v>>)
 LInsert == "lins" \in Acts /\ HasList /\ \E i \in P(0..Len0), v \in P(ElemPool) : StepL(LInsAt(TheList, i, v, FALSE), <<"LInsert", i, v>>)
 LExtendA == "lins" \in Acts /\ HasList /\ \E vs \in P(Seqs2(ElemPool)) : StepL(LExtend(TheList, vs), <<"LExtend", vs>>)
@@ -239,17 +297,21 @@ Next == \/ DSet \/ DSetAttr \/ OSetAttr \/ DRebind1 \/ ORebind1 \/ DDel \/ DPop 
         \/ DUpdate \/ DIor \/ DRebind2 \/ ORebind2
         \/ LSet \/ LRebindSet \/ LRebindAppend \/ LRebindInsert \/ LRebind2 \/ LDel \/ LPop \/ LRemove \/ LClear
         \/ LDelSlice \/ LSetSliceA \/ LAppend \/ LInsert \/ LExtendA \/ LIadd \/ LImul
+        \/ LDelSliceX \/ LSetSliceX \/ NSetExtAttr \/ NSetExtRebind \/ NLeaf
 
 L1 == ListV(<<IntV(1)>>)
 L3 == ListV(<<IntV(1), IntV(2), IntV(0)>>)
 InitRoots ==
   CASE Kind = "list" -> {L1, ListV(<<IntV(1), IntV(2)>>), L3}
+    [] Kind = "list2" -> {L3, ListV(<<IntV(1), IntV(2), IntV(0), IntV(1)>>), ListV(<<IntV(1), IntV(2), IntV(0), IntV(1), IntV(2)>>)}
+    [] Kind = "nest" -> {DictV(<< <<1, AVal(BVal(IntV(1)))>>, <<2, IntV(1)>> >>)}
     [] Kind = "dict" -> {DictV(<< <<1, IntV(0)>>, <<2, IntV(1)>>, <<3, l>> >>) : l \in {L1, L3}}
                         \cup {DictV(<< <<1, IntV(2)>>, <<2, IntV(0)>>, <<3, L1>>, <<7, StrV(1)>> >>)}
                         \cup (IF InitPartial THEN {DictV(<< <<1, VMissing>>, <<2, IntV(1)>>, <<3, L1>> >>)} ELSE {})
     [] Kind = "obj" -> {DictV(<< <<1, IntV(0)>>, <<2, IntV(1)>>, <<3, l>>, <<4, w>> >>) : l \in {L1, ListV(<<IntV(1), IntV(2)>>)}, w \in {VNone, StrV(1)}}
                         \cup (IF InitPartial THEN {DictV(<< <<1, VMissing>>, <<2, IntV(1)>>, <<3, L1>>, <<4, VNone>> >>)} ELSE {})
 Init == /\ root \in InitRoots /\ pok = InitPartial /\ out = "ok" /\ alts = {root} /\ act = <<"Init">>
+        /\ ext = IF Kind = "nest" THEN AVal(BVal(IntV(0))) ELSE VNone
 Spec == Init /\ [][Next]_vars
 LevelBound == TLCGet("level") <= MaxLevel
 
@@ -258,7 +320,7 @@ LevelBound == TLCGet("level") <= MaxLevel
 \* a member is acceptable to its spec and is a fixed point of apply
 MemberOK(f, v) == Acc(f, v) = "yes" /\ App(f, v) = v
 DeclaredOnly(c) == \A i \in 1..Len(c.xs) : MatchIdx(RootSpec, c.xs[i][1]) # 0
-ConstFields == {j \in 1..Len(RootSpec.fields) : RootSpec.fields[j][1] # 0}
+ConstFields == {j \in 1..Len(RootSpec.fields) : RootSpec.fields[j][1] > 0}
 RequiredPresent(c, partial) == \A j \in ConstFields :
    HasKey(c, RootSpec.fields[j][1]) /\ (ValAt(c, RootSpec.fields[j][1]) = VMissing => partial)
 FrozenHeld(c) == \A j \in ConstFields : RootSpec.fields[j][2].frz =>
@@ -267,14 +329,16 @@ MembersOK(c) == \A i \in 1..Len(c.xs) :
    c.xs[i][2] = VMissing \/ MemberOK(RootSpec.fields[MatchIdx(RootSpec, c.xs[i][1])][2], c.xs[i][2])
 ListOK(l) == SizeOK(Len(l.xs)) /\ \A i \in 1..Len(l.xs) : MemberOK(ElemS, l.xs[i])
 ConformsTo(c, partial) ==
-  IF Kind = "list" THEN ListOK(c)
+  IF IsListKind THEN ListOK(c)
   ELSE c.t = "dict" /\ DeclaredOnly(c) /\ RequiredPresent(c, partial) /\ FrozenHeld(c) /\ MembersOK(c)
+       /\ (HasMissing(c) => partial)                      \* nothing partial at any depth unless explicitly made partial
 Conforms == ConformsTo(root, pok)                       \* INVARIANT: never a state the schema rejects
 AltsConform == \A c \in alts : ConformsTo(c, pok)       \* ... whichever admissible prefix a rejected batch kept
 
-IsBatch(a) == a[1] \in {"DUpdate", "DIor", "Rebind2", "LRebind2", "LExtend", "LIadd", "LSetSlice", "LImul"}
+IsBatch(a) == a[1] \in {"DUpdate", "DIor", "Rebind2", "LRebind2", "LExtend", "LIadd", "LSetSlice", "LSetSliceX", "LImul"}
 \* a rejected write is not stored (a batch may have kept earlier valid elements: one of `alts`)
 RejectedWriteNoStore == [][out' \in {"err", "any"} => /\ root \in alts'
                                            /\ root' \in alts'
-                                           /\ (~IsBatch(act') => root' = root)]_vars
+                                           /\ (~IsBatch(act') => root' = root)
+                                           /\ ext' = ext]_vars
 =============================================================================
